@@ -114,6 +114,7 @@ func diskScratch() (string, error) {
 
 func checkB(c CaseB) *core.Violation {
 	lastB = outcomeB{image: "none"}
+	countCells(c.H)
 	if len(c.H.Ops) == 0 {
 		return nil
 	}
@@ -399,7 +400,7 @@ func TestC10b(t *testing.T) {
 	}
 	core.Run(t, core.Spec[CaseB]{
 		Property: "C10", Sub: "b",
-		Rule: "FAULT ENUMERATION by generated kill points: a child process applies a generated history (1-4 registrations + 1-14 operations as in (a), SMB/External listeners only) to a database on disk and reports BEGIN i / END i; it is SIGKILLed either while idle after END k or delay_us (0-20000) after BEGIN k; the actual progress is read from the report pipe. Oracle: differential against an unkilled reference run of the same history - every TS_Agents / TS_Links / TS_Listeners row equals its image after all acknowledged operations, except that rows touched by the single in-flight operation may be in their before- or after-image (the two wall-clock columns FirstCallIn/LastCallIn are not compared). Non-trivial: the kill landed inside an operation (BEGIN reported, END not; measured); distinct = (kind of the in-flight operation, before/after/mixed image observed, db fresh/existed/golden) ADDED: a fifth of the histories are pivot-tree histories with restarts at any point as in (a) (3-4 agents, 3-10 events; the restart operations are carried out inside the child, kills land in and between them as for every other operation)",
+		Rule: "FAULT ENUMERATION by generated kill points: a child process applies a generated history (1-4 registrations + 1-14 operations as in (a), SMB/External listeners only) to a database on disk and reports BEGIN i / END i; it is SIGKILLed either while idle after END k or delay_us (0-20000) after BEGIN k; the actual progress is read from the report pipe. Oracle: differential against an unkilled reference run of the same history - every TS_Agents / TS_Links / TS_Listeners row equals its image after all acknowledged operations, except that rows touched by the single in-flight operation may be in their before- or after-image (the two wall-clock columns FirstCallIn/LastCallIn are not compared). Non-trivial: the kill landed inside an operation (BEGIN reported, END not; measured); distinct = (kind of the in-flight operation, before/after/mixed image observed, db fresh/existed/golden) ADDED: a fifth of the histories are pivot-tree histories with restarts at any point as in (a) (3-4 agents, 3-10 events; the restart operations are carried out inside the child, kills land in and between them as for every other operation) ADDED: a third of the listener adds come from the listener kind x name class product of (a), kinds smb and ext only",
 		Gen:   genB, Check: checkB, Classify: classifyB,
 		Assumptions: []string{
 			"process kill only (SIGKILL); no power-loss / torn-page simulation",
